@@ -182,9 +182,9 @@ def blinds_strategy(draw, n, sb_amt, bb_amt):
 # ---- custom street lists (four template families) --------------------------
 
 @st.composite
-def custom_game(draw):
-    fam = draw(st.sampled_from(['flop', 'stud', 'draw', 'kuhn', 'flop',
-                                'stud', 'mixed']))
+def custom_game(draw, families=None):
+    fam = draw(st.sampled_from(families or ['flop', 'stud', 'draw', 'kuhn',
+                                            'flop', 'stud', 'mixed']))
     structure = draw(st.sampled_from(['FIXED_LIMIT', 'POT_LIMIT',
                                       'NO_LIMIT']))
     cap = draw(st.sampled_from([None, None, 1, 2, 3, 4]))
@@ -334,6 +334,7 @@ def configs(
         profiles=(0, 1, 2, 3, 4, 5),
         short_bias=False,
         stack_styles=None,
+        custom_families=None,
 ):
     game_pool = list(games) + (['CUSTOM'] * max(1, len(games) // 5)
                                if custom else [])
@@ -341,7 +342,7 @@ def configs(
     cdesc = None
     nboards = 1
     if game == 'CUSTOM':
-        cdesc = draw(custom_game())
+        cdesc = draw(custom_game(custom_families))
         stud = cdesc['stud']
         has_board = cdesc['board'] > 0
         if has_board and cdesc['deck'] != 'KUHN_POKER':
